@@ -94,7 +94,7 @@ def guard_correspondence(chk, n):
     exprs = ["{v}.sum()", "{v}.max()", "{v}.mean()", "{v}.cumsum()", "{v}.shift()", "_row_number()", "_size()", "_count()",
              "{v} + 1", "{v} * 2", "5", "{v}", "(-{v}) + {v}"]
     parts = [None, None, 1, 1, ["g"], ["g"], ["h"], ["g", "h"]]
-    orders = [None, None, None, ["c"], ["c"], ["c", "b"]]
+    orders = [None, None, None, ["c"], ["c"], ["c", "b"], ["b", "c"], ["c", "b", "a"]]
 
     def draw_ops(avail, fresh):
         ops = {}
@@ -116,7 +116,14 @@ def guard_correspondence(chk, n):
         tries += 1
         t = TableDescription(table_name="d", column_names=cols)
         ops1, (p1, o1, r1) = draw_ops(["a", "b"], ["x", "y", "z"]), draw_window()
-        if rng.random() < 0.6:
+        rr = rng.random()
+        if rr < 0.2:
+            # NEAR MISSES: the same columns in another sequence (order_by is a sequence: the windows differ), the same partition
+            # set in another sequence, a reversal that differs in one column
+            p2 = list(reversed(p1)) if isinstance(p1, list) else p1
+            o2 = (list(reversed(o1)) if rng.random() < 0.7 else o1[1:] + o1[:1]) if (o1 and len(o1) >= 2) else o1
+            r2 = list(r1) if rng.random() < 0.6 else ([c for c in (o2 or []) if c not in r1][:1] + list(r1))
+        elif rr < 0.65:
             p2, o2, r2 = (p1 if rng.random() < 0.7 else rng.choice(parts)), o1, r1     # mostly compatible windows
         else:
             p2, o2, r2 = draw_window()
@@ -184,6 +191,37 @@ def targeted_merge_script(rng, g, colty, order):
     return s
 
 
+def targeted_window_chain(rng, tables):
+    """two ADJACENT windowed extends over d1 whose windows are equal or near misses (same order columns in another sequence,
+    different reversal, different partition) with order-sensitive functions: merged or not, the chain must equal the steps"""
+    import pipes
+    t = tables[0]
+    cols = [c for c, _ in t["spec"]]
+    nums = [c for c, ty in t["spec"] if ty in ("int", "float") and c != "uid"]
+    if len(cols) < 3 or not nums:
+        return None
+    part = rng.choice([[], [rng.choice(cols[:-1])]])
+    rest = [c for c in cols if c not in part and c != "uid"]
+    if not rest:
+        return None
+    o1 = rng.sample(rest, min(len(rest), rng.choice([1, 2]))) + ["uid"]       # total: uid is unique
+    kind = rng.choice(["same", "permuted", "reversal", "partition"])
+    o2, r1 = list(o1), [c for c in o1 if rng.random() < 0.3]
+    r2, p2 = list(r1), list(part)
+    if kind == "permuted":
+        o2 = list(reversed(o1))
+    elif kind == "reversal":
+        r2 = [c for c in o1 if c not in r1][:1] + r1
+    elif kind == "partition":
+        p2 = [] if part else [rest[0]]
+    f1, f2 = rng.choice(["cumsum", "shift", "_row_number"]), rng.choice(["cumsum", "cummax", "_row_number"])
+    v = rng.choice(nums)
+    e = lambda f: "_row_number()" if f == "_row_number" else f"{v}.{f}()"
+    s = {"op": "extend", "src": {"op": "table", "name": "d1"}, "ops": {"w1": e(f1)}, "partition_by": part, "order_by": o1, "reverse": r1}
+    s = {"op": "extend", "src": s, "ops": {"w2": e(f2)}, "partition_by": p2, "order_by": o2, "reverse": r2}
+    return s
+
+
 def check_script(chk, s, tables, sample=False):
     """one chained script: the builder must accept it exactly when the step-by-step build does, and both must evaluate alike"""
     import pipes
@@ -247,6 +285,11 @@ def chain_vs_steps(chk, n):
                                               "rename_columns", "map_columns", "order_rows", "order_rows", "natural_join", "concat_rows"])
         if i % 3 == 0:
             s = targeted_merge_script(rng, g, dict(tables[0]["spec"]), [c for c, _ in tables[0]["spec"]])
+            if s is None:
+                continue
+        elif i % 7 == 1:
+            tables = [pipes.gen_table(rng, "d1", ncols=rng.randint(3, 4), types=("int", "float"), null_rate=0.0, nrows=rng.choice([4, 5, 6, 8]), unique_col="uid"), tables[1]]
+            s = targeted_window_chain(rng, tables)
             if s is None:
                 continue
         else:
